@@ -1,6 +1,7 @@
 """./check configuration for C09."""
 
 PROP = dict(
+    technique='Lean inductive invariant over the critical-section transition system (covers re-entrant OnDelete trees), refinement to a reference map+recency list, structural nested interpreter; differential tie on op scripts',
     module="GolibsVerif.Theorems.C09", namespace="GolibsVerif.C09",
     rule="scripts of Set/Get/Del/Clear/Stats calls (small key/value alphabets; Set carries what each of its OnDelete calls does, "
          "re-entrant to depth 3) under combinations of MaxSize, MaxElementSize, MaxCount, EnableLRU, OnDelete nil/set, plus every "
